@@ -341,6 +341,85 @@ fn child_concurrent(seed: u64, ops: u64, nthreads: usize, fd: i32) -> i32 {
     0
 }
 
+/// Fresh process: removal calls may be the very first registry calls; they report "nothing removed".
+fn child_fresh(fd: i32) -> i32 {
+    use fork::wr;
+    #[allow(deprecated)]
+    let a = signal_hook_registry::unregister_signal(libc::SIGUSR1);
+    #[allow(deprecated)]
+    let b = signal_hook_registry::unregister_signal(libc::SIGUSR2);
+    if a || b {
+        wr(fd, "BAD unregister_signal in a fresh process (nothing registered yet) returned true\n");
+    }
+    // and the registry works afterwards
+    match unsafe { signal_hook_registry::register(libc::SIGUSR1, || ran(7)) } {
+        Ok(id) => {
+            take_runlog();
+            unsafe { libc::raise(libc::SIGUSR1) };
+            if take_runlog() != vec![7] {
+                wr(fd, "BAD after unregister_signal on an empty registry a registered action did not run once\n");
+            }
+            if !signal_hook_registry::unregister(id) || signal_hook_registry::unregister(id) {
+                wr(fd, "BAD unregister result wrong after a fresh-process unregister_signal\n");
+            }
+        }
+        Err(e) => wr(fd, &format!("BAD register failed: {}\n", e)),
+    }
+    wr(fd, "STATS reg=1 unreg_live=1 unreg_stale=1 unreg_other=0 clear=2 deliver=1 signals=1 maxlen=1\n");
+    wr(fd, "DONE\n");
+    0
+}
+
+/// Two removers race for the same registration (unregister vs unregister, unregister vs unregister_signal):
+/// exactly one of them may report that it removed something.
+fn child_race_remove(seed: u64, rounds: u64, fd: i32) -> i32 {
+    use fork::wr;
+    use crate::director::{self, mode, RuleSpec};
+    director::install();
+    let mut rng = Rng::new(seed);
+    let sig = libc::SIGUSR1;
+    let _keep = unsafe { signal_hook_registry::register(libc::SIGUSR2, || ()) };
+    let mut bad = 0;
+    for round in 0..rounds {
+        director::clear_rules();
+        for st in [crate::site::UNREG_CLONED, crate::site::UNREG_BEFORE_PUBLISH, crate::site::HL_W_LOCKED] {
+            director::set_rule(st, RuleSpec { mode: mode::DELAY, p: 30000, max: 1 + rng.below(2000) as u32, ..Default::default() });
+        }
+        let id = match unsafe { signal_hook_registry::register(sig, || ()) } {
+            Ok(id) => id,
+            Err(_) => continue,
+        };
+        let by_signal = round % 3 == 2;
+        let go = std::sync::Arc::new(std::sync::atomic::AtomicBool::new(false));
+        let g2 = go.clone();
+        let h = std::thread::spawn(move || {
+            crate::set_thread(10, crate::class::MUTATOR);
+            director::seed_thread(round + 5);
+            while !g2.load(Ordering::SeqCst) {
+                std::hint::spin_loop();
+            }
+            if by_signal {
+                #[allow(deprecated)]
+                signal_hook_registry::unregister_signal(sig)
+            } else {
+                signal_hook_registry::unregister(id)
+            }
+        });
+        crate::set_thread(1, crate::class::MAIN);
+        go.store(true, Ordering::SeqCst);
+        let mine = signal_hook_registry::unregister(id);
+        let theirs = h.join().unwrap_or(false);
+        if mine as u32 + theirs as u32 != 1 && bad < 3 {
+            wr(fd, &format!("BAD round {}: one registration, two concurrent removers ({}): unregister returned {} and the other returned {} - exactly one may report a removal\n", round, if by_signal { "unregister vs unregister_signal" } else { "unregister vs unregister" }, mine, theirs));
+            bad += 1;
+        }
+    }
+    director::uninstall();
+    wr(fd, &format!("STATS reg={} unreg_live={} unreg_stale={} unreg_other=0 clear={} deliver=0 signals=1 maxlen=1\n", rounds, rounds, rounds, rounds / 3));
+    wr(fd, "DONE\n");
+    0
+}
+
 pub fn main(args: &[String]) -> i32 {
     let seed = arg_u64(args, "--seed", 1);
     let threads = arg_u64(args, "--threads", 1) as usize;
@@ -354,7 +433,16 @@ pub fn main(args: &[String]) -> i32 {
     let mut inconclusive = None;
     for p in 0..procs {
         let s = seed * 1000 + p;
-        let res = fork::probe(600_000, false, move |fd| if threads > 1 { child_concurrent(s, ops, threads.min(4), fd) } else { child(s, ops, fd) });
+        let race = crate::has_flag(args, "--race-remove");
+        let res = fork::probe(600_000, false, move |fd| {
+            if race {
+                if p == 0 { child_fresh(fd) } else { child_race_remove(s, ops, fd) }
+            } else if threads > 1 {
+                child_concurrent(s, ops, threads.min(4), fd)
+            } else {
+                child(s, ops, fd)
+            }
+        });
         match &res.end {
             End::Exit(0) if res.out.contains("DONE") => {}
             End::Timeout => {
@@ -367,7 +455,7 @@ pub fn main(args: &[String]) -> i32 {
             inconclusive = Some("restart probe: reader never blocked".into());
         }
         for l in res.out.lines().filter(|l| l.starts_with("BAD ")) {
-            let sigv = if l.contains("handed out before") { "id-reused" } else if l.contains("ran actions") { "delivery-differs-from-model" }
+            let sigv = if l.contains("exactly one may report") { "two-removers-both-true" } else if l.contains("fresh process") || l.contains("fresh-process") { "fresh-process-removal" } else if l.contains("handed out before") { "id-reused" } else if l.contains("ran actions") { "delivery-differs-from-model" }
                 else if l.contains("unregister") { "unregister-result" } else if l.contains("disposition") { "disposition-not-kept" }
                 else if l.contains("restarted") { "blocking-read-interrupted" } else if l.contains("register(") { "register-failed" } else { "model-misc" };
             bad.push((sigv.into(), format!("{} [history seed {}]", &l[4..], s)));
@@ -405,7 +493,7 @@ pub fn main(args: &[String]) -> i32 {
     let mut j = J::obj()
         .set("type", J::s("summary"))
         .set("workload", J::s("w_model"))
-        .set("mode", J::s(if threads > 1 { "concurrent-owners" } else { "sequential" }))
+        .set("mode", J::s(if crate::has_flag(args, "--race-remove") { "fresh+race-remove" } else if threads > 1 { "concurrent-owners" } else { "sequential" }))
         .set("seed", J::u(seed))
         .set("evaluations", J::u(procs * ops))
         .set("distinct_keys", J::arr(keys.iter().map(|k| J::s(k))))
